@@ -334,6 +334,116 @@ def prepare_loop(sl):
         observe("offline mode never downloads", not [x for x in log if x[0] == "download"])
 
 
+def table_follows_data_file(sl):
+    """the offset table that preparation leaves behind was built from the document file that is there NOW. The document file may be
+    re-created by preparation itself (extracted from the archive - tar restores the archive's, possibly old, modification time - or
+    downloaded); an offset table of the previous file is around. Modification times are symbolic."""
+    fs = SymFS()
+    log = []
+    root = "/data/corpus"
+    doc, arch = "documents.json", "documents.json.tar.gz"
+    doc_path, arch_path = real_os.path.join(root, doc), real_os.path.join(root, arch)
+    usize = fresh_int("declared_uncompressed_size", 1)
+    state = {"gen": 0, "dm": None, "table": None}
+    if bool(fresh_bool("document_file_present")):
+        fs.files[doc_path] = fresh_int("document_file_size", 0)
+        state["dm"] = core.fresh_real("mtime_of_the_present_document_file", 0)
+    if bool(fresh_bool("archive_present")):
+        fs.files[arch_path] = fresh_int("archive_size", 0)
+    if bool(fresh_bool("offset_table_present")):
+        tm = core.fresh_real("mtime_of_the_present_offset_table", 0)
+        if doc_path in fs.files and bool(fresh_bool("table_was_built_from_the_present_file")):
+            core.assume(tm >= state["dm"])  # it was written after the file it was built from
+            state["table"] = {"from": 0, "tm": tm}
+        else:
+            if doc_path in fs.files:
+                core.assume(tm < state["dm"])  # detectably stale to begin with; only Rally's own steps are judged
+            state["table"] = {"from": -1, "tm": tm}
+    now = [core.fresh_real("now", 0)]
+    for t in [state["dm"]] + ([state["table"]["tm"]] if state["table"] else []):
+        if t is not None:
+            core.assume(now[0] > t)
+    ds = track.Documents("bulk", document_file=doc, document_archive=arch, base_url="https://example.org/corpus", number_of_documents=1000,
+                         compressed_size_in_bytes=None, uncompressed_size_in_bytes=usize, target_index="idx")
+
+    def tick():
+        d = core.fresh_real("time_passes_%d" % len(log), 0)
+        core.assume(d > 0)
+        now[0] = now[0] + d
+        return now[0]
+
+    class Io:
+        @staticmethod
+        def ensure_dir(d):
+            pass
+
+        dirname = staticmethod(real_os.path.dirname)
+
+        @staticmethod
+        def exists(p):
+            return p in fs.files or (p == doc_path + ".offset" and state["table"] is not None)
+
+        @staticmethod
+        def decompress(archive, target_dir):
+            log.append(("decompress", archive))
+            tick()
+            fs.files[doc_path] = usize
+            state["gen"] += 1
+            # the extracted file carries whatever modification time the archive recorded for it
+            state["dm"] = core.fresh_real("mtime_restored_by_the_archive_%d" % len(log), 0)
+            core.assume(state["dm"] <= now[0])
+
+        @staticmethod
+        def prepare_file_offset_table(path):
+            log.append(("offset-table", path))
+            t = state["table"]
+            if t is not None and bool(t["tm"] >= state["dm"]):
+                return None  # FileOffsetTable.is_valid (harness table_validity): not rebuilt
+            state["table"] = {"from": state["gen"], "tm": tick()}
+            return 1000
+
+        @staticmethod
+        def remove_file_offset_table(path):
+            log.append(("remove-offset-table", path))
+            if state["table"] is None:
+                raise FileNotFoundError(path + ".offset")
+            state["table"] = None
+
+    class NetOk:
+        Progress = Net.Progress
+
+        @staticmethod
+        def download(url, local_path, expected_size_in_bytes=None, progress_indicator=None):
+            log.append(("download", local_path))
+            fs.files[local_path] = expected_size_in_bytes if expected_size_in_bytes is not None else fresh_int("downloaded_size%d" % len(log), 0)
+            if local_path == doc_path:
+                state["gen"] += 1
+                state["dm"] = tick()
+
+    class OsNs(fs.os_ns()):
+        pass
+
+    OsNs.path.exists = staticmethod(Io.exists)
+    prep = loader.DocumentSetPreparator("unittest-track", loader.Downloader(offline=False, test_mode=False), loader.Decompressor())
+    with shadowed(loader, ("round", "int"), extra={"os": OsNs, "net": NetOk, "io": Io, "console": offsets._Console}):
+        try:
+            prep.prepare_document_set(ds, root)
+            how, err = "ret", None
+        except Exception as e:  # noqa: BLE001
+            how, err = "raise", e
+    core.note("steps", [x[:2] for x in log])
+    core.note("outcome", (how, repr(err)[:100]))
+    core.trace("steps", len(log))
+    if how == "ret":
+        t = state["table"]
+        observe("on return an offset table exists", t is not None)
+        if t is not None:
+            observe("and it was built from the document file that is there now (a table of a previous file is never reused, whatever the "
+                    "modification times say)", t["from"] == state["gen"])
+    else:
+        observe("failure is an explicit Rally error", isinstance(err, (exceptions.DataError, exceptions.SystemSetupError, exceptions.RallyAssertionError)))
+
+
 def prepare_docs_roots(sl):
     """DefaultTrackPreparator.prepare_docs with a track given by path (two candidate data roots: next to track.json, then the corpus
     cache) followed by set_absolute_data_path: the file the race will READ is the one that was verified"""
@@ -483,6 +593,11 @@ def bundled(sl):
         def prepare_file_offset_table(path):
             log.append(("offset-table", path))
             return None
+
+        @staticmethod
+        def remove_file_offset_table(path):
+            log.append(("remove-offset-table", path))
+            raise FileNotFoundError(path + ".offset")  # no table is around in this harness
 
     prep = loader.DocumentSetPreparator("t", None, loader.Decompressor())
     with shadowed(loader, ("round", "int"), extra={"os": fs.os_ns(), "io": Io, "console": offsets._Console}):
@@ -637,6 +752,13 @@ HARNESSES = [
             bounds={"initial state": "document file / archive absent or present with arbitrary size", "declared sizes": "each present or absent, unbounded",
                     "flags": "base URL, offline, test mode"},
             doc="state loop: use, decompress or download; verified size; offset table last"),
+    Harness("table_follows_data_file", table_follows_data_file, "symbolic", lambda tier: [{}], reads=READS, real_valued=True,
+            stubs=FS_STUB + ["io.decompress re-creates the document file with an arbitrary modification time <= now (what tar does)", "net.download succeeds",
+                             "io.prepare_file_offset_table applies the validity rule of harness table_validity to symbolic modification times"],
+            assumptions=["an offset table that is stale before preparation starts is detectably stale (older than the present file): only Rally's own steps are judged",
+                         "the wall clock does not go back during preparation"],
+            bounds={"initial files": "document file / archive / offset table present or not", "modification times": "symbolic reals"},
+            doc="the offset table left behind belongs to the current document file"),
     Harness("prepare_docs_roots", prepare_docs_roots, "symbolic", lambda tier: [{}], reads=READS + [loader.DefaultTrackPreparator.prepare_docs, loader.set_absolute_data_path, loader.data_dir],
             stubs=FS_STUB + ["net.download (postcondition of harness `download`)", "io.prepare_file_offset_table recorder"],
             bounds={"candidate roots": "track directory then corpus cache, file present or absent in each with a symbolic size", "declared size": "symbolic"},
